@@ -102,11 +102,15 @@ type cmdRec struct {
 // clientRunner executes cops against a client, honouring the documented caller contract
 // (streaming commands are consumed or closed).
 type clientRunner struct {
-	r       *R
-	c       *imapclient.Client
-	recs    []*cmdRec
-	pending []func()
-	tag     string
+	r            *R
+	c            *imapclient.Client
+	recs         []*cmdRec
+	pending      []func()
+	pendingFetch bool
+	tag          string
+	// uidLane > 0: FETCH and STORE address only this UID, by UID (concurrent callers then never
+	// issue commands whose untagged data is ambiguous, RFC 9051 section 5.5)
+	uidLane int
 }
 
 func (cr *clientRunner) rec(o cop, name string) *cmdRec {
@@ -277,6 +281,9 @@ func (cr *clientRunner) issue(o cop) {
 		}
 		if o.Async {
 			cr.pending = append(cr.pending, w)
+			if o.Kind == opFetch || o.Kind == opStore {
+				cr.pendingFetch = true
+			}
 		} else {
 			// the command is already on the wire (pipelined behind the pending ones); a
 			// single-threaded caller must consume earlier streaming commands before waiting on it
@@ -294,7 +301,13 @@ func (cr *clientRunner) issue(o cop) {
 		cr.finish(rec, err, "")
 	case opNoop:
 		cmd := c.Noop()
-		later("NOOP", func() (error, string) { return cmd.Wait(), "" })
+		later("NOOP", func() (error, string) {
+			e1 := cmd.Wait()
+			if e2 := cmd.Wait(); (e1 == nil) != (e2 == nil) {
+				cr.r.Violate("wait-not-idempotent", "NOOP", "first Wait returned %v, second Wait returned %v", e1, e2)
+			}
+			return e1, ""
+		})
 	case opSelect:
 		cmd := c.Select(mboxNames[o.A%len(mboxNames)], &imap.SelectOptions{ReadOnly: o.B%3 == 0})
 		name := "SELECT"
@@ -311,7 +324,10 @@ func (cr *clientRunner) issue(o cop) {
 	case opFetch:
 		var cmd *imapclient.FetchCommand
 		name := "FETCH"
-		if o.A >= 6 {
+		if cr.uidLane > 0 {
+			cmd = c.Fetch(imap.UIDSetNum(imap.UID(cr.uidLane)), fetchOptionsFor(o.B))
+			name = "UID FETCH"
+		} else if o.A >= 6 {
 			cmd = c.Fetch(uidSetFor(o.A), fetchOptionsFor(o.B))
 			name = "UID FETCH"
 		} else {
@@ -323,8 +339,14 @@ func (cr *clientRunner) issue(o cop) {
 		})
 	case opStore:
 		flags := &imap.StoreFlags{Op: []imap.StoreFlagsOp{imap.StoreFlagsAdd, imap.StoreFlagsDel, imap.StoreFlagsSet}[o.B%3], Silent: o.B >= 6, Flags: []imap.Flag{[]imap.Flag{imap.FlagSeen, imap.FlagDeleted, imap.FlagFlagged, "custom"}[o.B%4]}}
-		cmd := c.Store(seqSetFor(o.A), flags, nil)
-		later("STORE", func() (error, string) {
+		var cmd *imapclient.FetchCommand
+		name := "STORE"
+		if cr.uidLane > 0 {
+			cmd, name = c.Store(imap.UIDSetNum(imap.UID(cr.uidLane)), flags, nil), "UID STORE"
+		} else {
+			cmd = c.Store(seqSetFor(o.A), flags, nil)
+		}
+		later(name, func() (error, string) {
 			n, err := consumeFetch(cmd, o.Mode)
 			return err, fmt.Sprintf("msgs=%d", n)
 		})
@@ -501,6 +523,7 @@ func (cr *clientRunner) issue(o cop) {
 func (cr *clientRunner) drain() {
 	p := cr.pending
 	cr.pending = nil
+	cr.pendingFetch = false
 	for _, w := range p {
 		w()
 	}
@@ -512,6 +535,12 @@ func (cr *clientRunner) run(ops []cop) {
 		case opIdle, opAppend, opMove, opUIDExpunge, opMailboxAdmin, opCaps, opEnable, opUnselect, opSelect, opAuthPlain, opLogin:
 			// commands that change state or block the client: do not pipeline behind pending streaming commands
 			cr.drain()
+		case opFetch, opStore:
+			// two pipelined FETCH/STORE commands on overlapping messages are ambiguous for the client
+			// (it attributes FETCH data by set membership, e.g. "*" vs "1:*"): RFC 9051 5.5 caveat
+			if cr.pendingFetch {
+				cr.drain()
+			}
 		}
 		cr.issue(o)
 	}
